@@ -1,2 +1,4 @@
 import JwtProofs.Text
 import JwtProofs.Subject
+import JwtProofs.Revocation
+import JwtProofs.Lists
